@@ -29,7 +29,7 @@ def run(ctx):
 
     th = threading.Thread(target=model)
     th.start()
-    conf = {'cases': 14, 'max_per_field': 8} if ctx.quick else {'cases': 10 ** 6, 'max_per_field': 14}
+    conf = {'cases': 10, 'max_per_field': 8} if ctx.quick else {'cases': 10 ** 6, 'max_per_field': 14}
     specs = sh.trace_specs(ctx, 'c07', 1 if ctx.quick else 2)
     res = sh.generate(specs, conf, nproc=6 if ctx.quick else 14)
     val = sh.validate_all(ctx, res)
@@ -44,3 +44,7 @@ def run(ctx):
 
 def replay(ctx, path):
     return sh.replay(ctx, path, sh.C07_CLAUSES)
+
+
+def selftest(ctx):
+    return sh.selftest(ctx)
